@@ -89,35 +89,54 @@ class Run:
     def __init__(self,eng,prefix):
         self.eng=eng; self.prefix=prefix; self.dec=[]; self.labels=[]
         self.solver=eng.solver; self.steps=0; self.log=[]; self.stack=[]; self.ghost={}
-        self.fresh_n=collections.Counter(); self.stop_at_new=False
+        self.fresh_n=collections.Counter(); self.stop_at_new=False; self.model=None; self.forced={}
     def fresh(self,name,sort):
         """path-independent naming: n-th variable of that base name on this path"""
         k=self.fresh_n[name]; self.fresh_n[name]+=1
         nm='%s#%d'%(name,k) if k else name
         if sort=='bool': return z3.Bool(nm)
         return z3.BitVec(nm,sort)
+    def add(self,*cs):
+        """add constraints to the path condition (invalidates the cached model)"""
+        self.solver.add(*cs); self.model=None
     def assume(self,c):
         if c is True: return
         if c is False: raise Infeasible()
         self.solver.add(c)
         self.eng.queries+=1
         if self.solver.check()!=z3.sat: raise Infeasible()
+        self.model=self.solver.model()
     def choose(self,options,label=None):
         """options: list of z3 Bool constraints (or True); returns the chosen index"""
         i=len(self.dec); eng=self.eng
         if i<len(self.prefix):
             k=self.prefix[i]
             self.dec.append(k); self.labels.append(label)
-            if options[k] is not True: self.solver.add(options[k])
+            if options[k] is not True: self.solver.add(options[k]); self.model=None
             return k
         feas=[]
+        key=None
+        if len(options)==2 and options[0] is not True and options[1] is not True:
+            try: key=options[0].get_id()
+            except Exception: key=None
+            if key is not None and key in self.forced:
+                k=self.forced[key]
+                self.dec.append(k); self.labels.append(label)
+                self.solver.add(options[k])
+                return k
+        model=self.model
         for k,o in enumerate(options):
             if o is True: feas.append(k); continue
             if o is False: continue
+            if model is not None:
+                try:
+                    if z3.is_true(model.eval(o,model_completion=True)): feas.append(k); continue
+                except z3.Z3Exception: pass
             eng.queries+=1
             t=time.time()
             self.solver.push(); self.solver.add(o)
             r=self.solver.check()
+            if r==z3.sat and model is None: self.model=model=self.solver.model()
             self.solver.pop()
             eng.solver_s+=time.time()-t
             if r==z3.sat: feas.append(k)
@@ -126,6 +145,12 @@ class Run:
         if self.stop_at_new: raise _NewDecision(feas)
         for k in reversed(feas[1:]): eng.work.append(self.dec+[k])
         k=feas[0]
+        if len(feas)==1 and key is not None and len(self.dec)>=len(self.prefix): self.forced[key]=k
+        if len(feas)>1 and self.model is not None and options[k] is not True:
+            # the current model may not satisfy the taken option any more
+            try:
+                if not z3.is_true(self.model.eval(options[k],model_completion=True)): self.model=None
+            except z3.Z3Exception: self.model=None
         self.dec.append(k); self.labels.append(label)
         if options[k] is not True: self.solver.add(options[k])
         return k
@@ -155,6 +180,7 @@ class Engine:
         self.parse_s=time.time()-t
         self.by_name=collections.defaultdict(list)
         self.impl_index=collections.defaultdict(list)
+        self.nested_impls=collections.defaultdict(list)
         self.closure_index={}
         self.const_index=collections.defaultdict(list)
         for b in self.bodies:
@@ -163,6 +189,13 @@ class Engine:
                 m=re.search(r'<impl at ([^>]*)>::([A-Za-z_0-9]+)$',b.name)
                 if m:
                     tr,ty=self.src.impl_at(m.group(1))
+                    if b.name.count('<impl at')>1:
+                        # impl nested inside a function (derive helper types such as __SerializeWith / __Visitor / __Field):
+                        # self type = type of the first parameter
+                        pt=b.params[0][1] if b.params else ''
+                        ty=last_ident(pt) if pt else ty
+                        self.nested_impls[(tr,ty,m.group(2))].append(b)
+                        continue
                     self.impl_index[(tr,ty,m.group(2))].append(b)
                     if tr=='Error' and m.group(2)=='fmt':       # #[derive(thiserror::Error)] generates the Display impl
                         self.impl_index[('Display',ty,'fmt')].append(b)
@@ -183,8 +216,8 @@ class Engine:
         self.resolve_cache={}
         self.const_cache={}
         self.log_enabled=False
-        from . import models as _m, models_json as _mj
-        _mj.register(self); _m.register_all(self)
+        from . import models as _m, models_json as _mj, models_serde as _ms
+        _ms.register(self); _mj.register(self); _m.register_all(self)
 
     # ---------------------------------------------------------------- registration
     def model(self,pattern,fn,name=None):
@@ -216,17 +249,20 @@ class Engine:
         if isinstance(v,Opaque): return v.kind
         return type(v).__name__
 
-    def resolve_incrate(self,key,argv):
+    def resolve_incrate(self,key,argv,caller=None):
         """key: callee text without turbofish.  returns Body or None"""
         sa=split_as(key)
         if sa:
             ty,tr,meth=sa
             if '::' in meth: return None
             if 'serde_json::' in ty or ty.startswith('std::') and False: return None
-            tyn=last_ident(ty); trn=last_ident(tr) if tr else None
+            tyn=self.src.qualify(last_ident(ty),ty); trn=last_ident(tr) if tr else None
             if 'serde_json' in ty: return None
             c=self.impl_index.get((trn,tyn,meth))
             if c and len(c)==1: return c[0]
+            if not c and caller is not None:
+                n=[b for b in self.nested_impls.get((trn,tyn,meth),[]) if b.name.startswith(caller+'::') or caller.startswith(b.name.rsplit('::<impl at',1)[0])]
+                if len(n)==1: return n[0]
             if c and len(c)>1:
                 # several impls of a generic trait for one type (From<A>, From<B>, ...): select by the trait argument
                 m=re.match(r'^[A-Za-z_:]+<(.*)>$',tr or '')
@@ -246,7 +282,7 @@ class Engine:
         if len(parts)>=2:
             meth=parts[-1]; tyn=parts[-2]
             if 'serde_json' in parts[:-1]: return None
-            tyn=last_ident(tyn)
+            tyn=self.src.qualify(last_ident(tyn),key)
             c=self.impl_index.get((None,tyn,meth))
             if c and len(c)==1: return c[0]
             if tyn in self.src.structs or tyn in self.src.enums:
@@ -558,7 +594,7 @@ class Engine:
         if prev is None and last not in self.src.structs:
             owners=[en for en,vs in self.enums.items() if last in vs and '::' not in en]
             if len(owners)==1: return Agg(owners[0],fields,self.enums[owners[0]].index(last),last)
-        return Agg(last,fields)
+        return Agg(self.src.qualify(last,key),fields)
 
     def unop(self,op,a):
         if op=='Not':
@@ -663,20 +699,21 @@ class Engine:
 
     def call_named(self,run,key,argv,func=None):
         func=func or key
-        ck=(key,self.type_of(argv[0]) if argv else None)
+        caller=run.stack[-1][0] if run.stack else None
+        ck=(key,self.type_of(argv[0]) if argv else None,caller if '__' in key else None)
         hit=self.resolve_cache.get(ck)
         if hit is None:
-            hit=self._resolve(key,argv)
+            hit=self._resolve(key,argv,caller)
             self.resolve_cache[ck]=hit
         kind,target,name=hit
         if kind=='body': return self.call_fn(run,target,argv)
         if kind=='none': raise Unsupported('no model for call: '+key[:200])
         self.used[name]+=1
         return target(self,run,argv,func)
-    def _resolve(self,key,argv):
+    def _resolve(self,key,argv,caller=None):
         for pat,fn,name in self.stubs:
             if pat.search(key): return ('stub',fn,'stub:'+name)
-        b=self.resolve_incrate(key,argv)
+        b=self.resolve_incrate(key,argv,caller)
         if b is not None: return ('body',b,None)
         for pat,fn,name in self.models:
             if pat.search(key): return ('model',fn,'model:'+name)
